@@ -40,6 +40,8 @@ Watchdog::Watchdog(long csecs,
             Implementation::Watchdog::Handler_Flag<Flag_Base, Flag>(holder,
                                                                     flag)) {
   if (csecs == 0) {
+    // Do not leak the handler allocated by the member initializer.
+    delete &handler;
     throw std::invalid_argument("Watchdog constructor called with a"
                                 " non-positive number of centiseconds");
   }
@@ -53,6 +55,8 @@ Watchdog::Watchdog(long csecs, void (* const function)())
   : expired(false),
     handler(*new Implementation::Watchdog::Handler_Function(function)) {
   if (csecs == 0) {
+    // Do not leak the handler allocated by the member initializer.
+    delete &handler;
     throw std::invalid_argument("Watchdog constructor called with a"
                                 " non-positive number of centiseconds");
   }
